@@ -238,7 +238,7 @@ def replay(body):
 def run(ctx):
     rng = ctx.rng
     ctx.check_theorems()
-    ctx.check_generated(['qlat', 'uint', 'kcrop', 'dint', 'urefine'])
+    ctx.check_generated(['qlat', 'uint', 'kcrop', 'dint', 'urefine', 'uzs'])
     # (K) IntegrationUDF vs UDF.integrate (exact integers x quantised mask)
     exprs, meta = [], []
     nq = ctx.n(10, 80)
